@@ -13,6 +13,8 @@ import (
 	"encoding/hex"
 	"flag"
 	"fmt"
+	"os"
+	"path/filepath"
 	"strings"
 	"unicode/utf8"
 
@@ -119,7 +121,11 @@ func checkParseType(res *lib.Result, in input, o Obs) (violated bool) {
 		res.Violate(lib.Violation{Clause: clause, What: fmt.Sprintf("Context.ParseType(%s): %s", in.Text, what), Input: in, Tags: tags})
 	}
 	switch o.Class {
-	case "ok", "skipped":
+	case "skipped":
+	case "ok":
+		if o.Aux["nil"] == "true" {
+			v("resolve-returns-type", "returns a nil Type without raising an error")
+		}
 	case "timeout":
 		v("resolve-terminates", "does not return within "+singleDeadline.String()+" (hang)", "hang")
 	case "crash":
@@ -151,6 +157,10 @@ func run(cfg *lib.Config, res *lib.Result, rng *lib.Rng, pool *Pool) {
 	fams := families(cfg, rng)
 	em := newEmitter()
 	total := 0
+	// every failing input of the run, one per line (triage aid; the replay files hold the first few per clause)
+	all, _ := os.Create(filepath.Join(cfg.Out, "failing_inputs.txt"))
+	defer all.Close()
+	nall := 0
 	for _, f := range fams {
 		op := "P"
 		if f.kind == "parsetype" {
@@ -180,6 +190,10 @@ func run(cfg *lib.Config, res *lib.Result, rng *lib.Rng, pool *Pool) {
 				bad = checkParse(res, in, o)
 			} else {
 				bad = checkParseType(res, in, o)
+			}
+			if bad && nall < 50000 {
+				nall++
+				fmt.Fprintf(all, "%s\t%s\t%s\t%s\t%d:%d\t%s\n", f.kind, f.name, in.Text, o.Class, o.Line, o.Col, o.Msg)
 			}
 			if (f.coq > 0 && i%stride == 0) || (bad && em.nbad < 20) {
 				if bad {
@@ -280,6 +294,21 @@ func families(cfg *lib.Config, rng *lib.Rng) []family {
 			}
 		}
 		add("invalid-utf8", "parse", sc(150, 1000), us)
+	}
+	// nesting: every enclosing form around every valid expression / argument, two levels
+	{
+		inner := append(append([]string{}, validExpressions...), argPool...)
+		var l1, l2 []string
+		nestings(inner, func(s string) { l1 = append(l1, s) })
+		var short []string
+		for _, s := range l1 {
+			if len(s) <= 24 {
+				short = append(short, s)
+			}
+		}
+		nestings(short, func(s string) { l2 = append(l2, s) })
+		add("nesting", "parse", sc(300, 2000), append(l1, l2...))
+		add("resolve-nesting", "parsetype", 0, l1)
 	}
 	// number scanner words
 	{
